@@ -114,8 +114,35 @@ def c15(prog, rep):
                         'string utilities outside the container units are not in scope of C15']
 
 
+def c12(prog, rep):
+    from . import escape as E, own as O, copy as C
+    om = O.OwnModel(prog)
+    for u in E.ACCESSOR_UNITS:
+        prog.unit(u)
+    E.rule_r1(prog, rep, E.ACCESSOR_UNITS)
+    E.rule_r3(prog, rep, E.ACCESSOR_UNITS, om)
+    E.rule_r2(prog, rep, E.ACCESSOR_UNITS)
+    C.rule_m4(prog, rep, E.ACCESSOR_UNITS + ['src/utilities/qstring.c'], rid='R2-len')
+    rep.floor('R1', 55)
+    rep.floor('R3', 38)
+    rep.floor('R2', 8)
+    rep.floor('R2-len', 9)
+    rep.explanation = (
+        'R1: for every raw key/value pointer parameter (const void*/const char*/void*/char*) of every public function of the '
+        'nine container units, the pointer value (through locals, offsets, casts, ?:, strchr-like derivations and callee '
+        'summaries) is never stored into memory - only handed to copying primitives. R3: for the 26 copy-flag accessors '
+        '(analysed under the assumption newmem == true, with infeasible CFG edges pruned) and the 22 always-copy accessors '
+        '(pop*, find_min/max, toarray/tostring, static-hash get*) every returned pointer and every value stored into the '
+        'cursor\'s name/data originates from a fresh allocation (interprocedural fixpoint through wrappers). R2: the size '
+        'recorded next to a private copy and the malloc size equal the copied length (+1 for a terminator). Not decided: '
+        'byte-for-byte equality at run time.')
+    rep.assumptions += ['qhasharr(memory) keeps the region address by design (one named exemption)',
+                        'libc callees do not retain their pointer arguments']
+
+
 PROPS = {
     'C11': dict(fn=c11, level='other'),
+    'C12': dict(fn=c12, level='other'),
     'C15': dict(fn=c15, level='other'),
     'C13': dict(fn=c13, level='other'),
     'C14': dict(fn=c14, level='proof'),
@@ -138,7 +165,8 @@ def run(prop, tier):
         rep.broken_if(len(prog.units) < EXPECTED_UNITS - 2,
                       'only %d units found (expected about %d)' % (len(prog.units), EXPECTED_UNITS))
         spec['fn'](prog, rep)
-    if tier == 'thorough' and spec.get('selftest'):
-        spec['selftest'](rep)
+    if tier == 'thorough' or os.environ.get('QV_SELFTEST'):
+        from .mutants import run_selftest
+        run_selftest(prop, rep, spec['fn'])
     rep.notes['root'] = root
     return rep.finish()
